@@ -17,7 +17,7 @@ BC = CORE + "consensus::blockchain::Blockchain::"
 
 def run(prog, tier, extra=None):
     res = Result("C05", "other")
-    R1 = res.rule("C05.gate", "the longest-chain decision and the golden-ticket density verdict gate what follows", floor=2)
+    R1 = res.rule("C05.gate", "the longest-chain decision and the golden-ticket density verdict gate what follows", floor=4)
     R2 = res.rule("C05.strictly-longer", "is_new_chain_the_longest_chain accepts only a strictly longer chain with at least the burn fee", floor=2)
     R4 = res.rule("C05.density-anchor", "the golden-ticket density is evaluated at the tip of the candidate chain", floor=1)
     R3 = res.rule("C05.density-constants", "the density rule is computed from MIN_GOLDEN_TICKETS_NUMERATOR/DENOMINATOR", floor=2)
@@ -51,16 +51,38 @@ def run(prog, tier, extra=None):
         reach2 = ab.reachable(0, deleted_edges=fe["true"])
         if any(bb in reach2 for bb in val_blocks):
             res.add(Finding(R1, "C05.gate|reorg-without-flag", "add_block starts a reorganisation (Blockchain::validate) on a path where the candidate was not judged the longest chain", ab.loc(val_blocks[0])))
-    # R1b
+    # R1b: every caller of the density check (Blockchain::validate today) treats a failing verdict as a rejection: no accept
+    # outcome of that consumer (true / (true, _) / wind / unwind / BlockAddedSuccessfully / add_block_success) is reachable
+    # on the rejecting edge. The 2-of-6 rule is only ever evaluated for the window ending at a candidate tip, so it holds for
+    # every window of the adopted chain only if a tip that fails it is discarded rather than kept as a side block
+    from .c01 import accept_for
     bv = prog.body(BC + "validate::{closure#0}")
-    for s in gate.verdict_sites(bv, lambda n: n == BC + "is_golden_ticket_count_valid"):
-        res.instance(R1)
-        found, ex = gate.check_gate(bv, s, gate.make_accept(bv, tuple0_true=True, effects=("Blockchain::wind_chain", "Blockchain::unwind_chain")), prog.units)
-        if found:
-            kind, path = sorted(found.items())[0]
-            res.add(Finding(R1, "C05.gate|density", "Blockchain::validate continues (%s) although the golden-ticket density check failed" % kind, bv.loc(s["bb"]), {"path": describe_path(bv, path)}))
-        else:
-            res.sample({"rule": R1, "site": bv.loc(s["bb"]), "verdict": "a failing density check only returns (false, _)"})
+    DENSITY = (BC + "is_golden_ticket_count_valid", CORE + "consensus::blockchain::is_golden_ticket_count_valid_")
+    in_validate = 0
+    for b in prog.all_bodies():
+        if b.unit.crate != "saito_core" or "::tests::" in b.path or "::test::" in b.path or "/test/" in b.file:
+            continue
+        for s in gate.verdict_sites(b, lambda n: n in DENSITY):
+            res.instance(R1)
+            in_validate += b is bv
+            if b is bv:
+                accept, desc = gate.make_accept(bv, tuple0_true=True, effects=("Blockchain::wind_chain", "Blockchain::unwind_chain")), "(true, _) / wind / unwind"
+            else:
+                accept, desc = accept_for(b)
+            name = "::".join(b.path.replace("::{closure#0}", "").split("::")[-2:])
+            if s["local"] is None:
+                res.add(Finding(R1, "C05.gate|density|%s|unbound" % b.path, "%s does not bind the golden-ticket density verdict to a value that can gate" % name, b.loc(s["bb"])))
+                continue
+            found, ex = gate.check_gate(b, s, accept, prog.units)
+            if found:
+                kind, path = sorted(found.items())[0]
+                key = "C05.gate|density" if b is bv else "C05.gate|density|%s" % b.path
+                res.add(Finding(R1, key, "%s continues (%s) although the golden-ticket density check failed (accept outcomes: %s)" % (name, kind, desc),
+                                b.loc(s["bb"]), {"path": describe_path(b, path)}))
+            else:
+                res.sample({"rule": R1, "site": b.loc(s["bb"]), "consumer": name, "verdict": "a failing density check reaches no accept outcome (%s)" % desc})
+    if not in_validate:
+        res.add(Finding(R1, "C05.gate|density-missing", "Blockchain::validate no longer evaluates the golden-ticket density of the candidate chain", bv.loc(0)))
 
     # R4: the density rule is evaluated at the candidate tip: the window handed to is_golden_ticket_count_valid starts at the
     # parent of new_chain[0] (the chain slices are ordered tip first) and the "has ticket" flag is that block's own
